@@ -32,6 +32,22 @@ ASSUMPTIONS = [
     "characterisation (negative hysteresis is only tied to the model)",
     "float regime (non power-of-two sizes or non-dyadic samples, envelope): compared with relative tolerance 1e-9",
 ]
+MANIFEST = {
+    "text": ("Lean 4 theorems, for all inputs / sizes / lags / limits / thresholds: maverage.deque = .recursive = .fir = mean "
+             "of the last size samples (zero extended); accumulate.* = running sums; amdf = moving average of |x[n]-x[n-lag]|; "
+             "envelope.* = low-pass of |x| / x^2 by definition (non-negative for the one-pole design); clip = min(high,max(low,x)) "
+             "with absent limits skipped, idempotent, bounded, error iff high<low; zcross two-loop state machine = closed "
+             "characterisation by the latest sample outside the band (h >= 0); unwrap = cumulative nearest-residue correction, "
+             "outputs differ by integer multiples of step, identity without large jumps, adjacent jump <= max(max_delta, step/2). "
+             "The Rat instances executed by the driver are proved to be instances of these theorems; tied to /repo by a "
+             "differential run on Fractions (exact regime / 1e-9 float regime) plus a structural comparison of the ZFilter "
+             "coefficient lists."),
+    "note": ("Trusted: Lean kernel, propext/Classical.choice/Quot.sound, the Python harness; the filter-built strategies are "
+             "modelled by a self-contained direct-form loop (the generated LinearFilter loop is property C04); the low-pass design "
+             "used by envelope is property C13; sqrt of envelope.rms is compared in floats."),
+    "technique": "Lean 4 machine-checked proof over an executable model + differential correspondence",
+    "design_ref": "DESIGN.md section 7, C20",
+}
 TOL = F(1, 10 ** 9)
 
 
